@@ -182,7 +182,10 @@ C17_Dispatch(w1, e, w2) ==
      /\ (e.ok /\ ~IsProbe(e)) =>
           LET hs == DispHeld(w1, "usei")  hb == DispHeld(w1, "kusd")
               ks == MulDec(hs, w1.disp.rate)  kb == MulDec(hb, w1.disp.rate)
-          IN /\ DispHeld(w2, "usei") = 0 /\ DispHeld(w2, "kusd") = 0
+              \* staking rewards that the chain pays out while the re-bonded coins are delegated arrive after the
+              \* dispatcher has read its balances; they are not part of what it held
+              arrived(d) == IF w1.wdAddr = "dispatcher" THEN SumFn([v \in Vals |-> w1.pend[v][d] - w2.pend[v][d]], Vals) ELSE 0
+          IN /\ DispHeld(w2, "usei") = arrived("usei") /\ DispHeld(w2, "kusd") = arrived("kusd")
              /\ BankBal(w2, "keeper", "usei") = BankBal(w1, "keeper", "usei") + ks
              /\ BankBal(w2, "keeper", "kusd") = BankBal(w1, "keeper", "kusd") + kb
              /\ BankBal(w2, "reward", "kusd") = BankBal(w1, "reward", "kusd") + (hb - kb)
@@ -209,7 +212,8 @@ TokStep(w1, e, w2, c) ==
         /\ t2.allow[m.owner][sp].amt = al.amt - m.amount
         /\ t1.bal[m.owner] >= m.amount
         /\ (m.k = "burn_from" => t2.supply = t1.supply - m.amount /\ t2.bal[m.owner] = t1.bal[m.owner] - m.amount)
-        /\ (m.k # "burn_from" => t2.supply = t1.supply)
+        /\ (m.k = "transfer_from" => t2.supply = t1.supply)
+        /\ (m.k = "send_from" => t2.supply <= t1.supply)
   \* supply moves only by the hub's mint / burn or an allowance burn; every stSei burn and every bSei allowance burn
   \* refreshes the hub's rates in the same transaction
   /\ (t2.supply > t1.supply /\ ~IsProbe(e)) => e.ok /\ (ExecIs(e, c, "mint") \/ FxWasm(e, "hub", c, "mint")) /\ t1.minter = "hub"
